@@ -12,12 +12,14 @@
   function's model succeeds and the new store realises the lists changed by the forest operation.  Each of
   them therefore also shows that `WF` is preserved (`wf_preserved_partial`).
 
-  Proved here: after, before, unlink, clear, destroy (incl. refusal), shallow clone; the link invariants in
-  pointer terms; release exactly once; shape equality of relabelled (cloned) forests.
-  Kept as `…_statement` only (exercised by the correspondence run, not proved): insert/add by position and by
-  name (the position search loops of node_insert.c/node_locate.c), tree/list clone on the pointer store, move.
+  Proved here: after, before, add/insert by position (incl. the position search of gnode_pos.c and the first
+  child of a childless parent), unlink, clear, destroy (incl. refusal), node/tree/list clone; the link
+  invariants in pointer terms; release exactly once; a clone realises the relabelled source (same shape, names
+  and values at every depth); the walk the drivers print is the abstraction.
+  Kept as `…_statement` only (exercised by the correspondence run, not proved): insert/add by name (the
+  search loops of node_locate.c) and move.
 -/
-import MptModel.Lemmas.NodesClone
+import MptModel.Lemmas.NodesDeepClone
 namespace Mpt.C14
 open Mpt Mpt.Nodes Mpt.Forest
 
@@ -61,6 +63,22 @@ theorem wf_links {s : Store} (h : WF s) : ∀ i n, s.Live i n → LinksAt s i n 
 example : LinksAt exStore 1 { parent := some 0, name := some "b" } :=
   wf_links ⟨exTops, exRealises⟩ 1 _ ⟨rfl, rfl⟩
 
+/-- The walk both drivers perform after every op (every list head = live node without parent and predecessor,
+    `prev`/`parent` of every element checked, nothing reached twice, nothing live left over) returns on a
+    well-formed store exactly the realised lists, when these are listed in the order of creation of their heads:
+    what the model driver prints in its `C` section is the abstraction the theorems speak about. -/
+theorem walk_is_abstraction {s : Store} {tops : List Forest} (h : Realises s tops)
+    (hord : tops.filterMap headId = s.heads) : s.walk = .ok tops :=
+  walk_realises h hord
+
+/-- the walk's starting points are exactly the heads of the realised top-level lists -/
+theorem heads_are_roots {s : Store} {tops : List Forest} (h : Realises s tops) (i : Nat) :
+    i ∈ s.heads ↔ ∃ l ∈ tops, headId l = some i :=
+  h.mem_heads i
+
+example : exStore.walk = .ok [[.node 0 (some "a") none [.node 1 (some "b") none []]], [.node 2 (some "a") (some "v") []]] :=
+  walk_is_abstraction (exRealises.perm (List.Perm.swap _ _ _)) (by decide)
+
 /-- the abstraction relation does not depend on the order in which the top-level lists are given -/
 theorem realises_perm {s : Store} {tops tops' : List Forest} (h : Realises s tops) (hp : tops'.Perm tops) :
     Realises s tops' := h.perm hp
@@ -98,6 +116,38 @@ example : ∃ s', exStore.gnodeBefore (some 1) 2 = .ok s' ∧
   by simpa [applyAt, modKids, Tree.children] using
     abs_before (p := 1) (rest := []) exRealises (SibsAt.kids (q := 0) (tq := .node 0 (some "a") none [.node 1 (some "b") none []])
       (j := 0) (by simp [find?]) (by rfl))
+
+/-- `mpt_gnode_add(first, pos, x)` by position: `x` is placed into the sibling list of `first` at the index the
+    position denotes — `addIdx`: 0 = end, k > 0 = in front of the k-th element counted from `first` (end when there is
+    none), -k = so that k elements follow (in front of `first` when the list is shorter) -/
+theorem abs_add {s : Store} {first x f : Nat} {n' : Name} {v' : Val} {cs' l0 L : Forest} {rest : List Forest}
+    {par : Option Nat} (pos : Int)
+    (hR : Realises s ([.node x n' v' cs'] :: l0 :: rest)) (hat : SibsAt first l0 L f par) :
+    ∃ s', s.add first pos x false = .ok s' ∧
+      Realises s' (applyAt par (fun L' => L'.insertIdx (addIdx L.length f pos) (.node x n' v' cs')) l0 :: rest) :=
+  add_refines pos hR hat
+
+/-- `mpt_gnode_insert(parent, pos, x)` by position, parent with children -/
+theorem abs_insert {s : Store} {parent x : Nat} {n' : Name} {v' : Val} {cs' l0 : Forest} {rest : List Forest}
+    {tp : Tree} (pos : Int)
+    (hR : Realises s ([.node x n' v' cs'] :: l0 :: rest)) (hf : find? parent l0 = some tp) (hne : tp.children ≠ []) :
+    ∃ s', s.insert parent pos x false = .ok s' ∧
+      Realises s' (modKids parent (fun L' => L'.insertIdx (addIdx tp.children.length 0 pos) (.node x n' v' cs')) l0 :: rest) :=
+  insert_refines pos hR hf hne
+
+/-- `mpt_gnode_insert`/`mpt_node_insert(parent, pos, x)`, parent without children: `x` becomes the only child -/
+theorem abs_insert_first_child {s : Store} {parent x : Nat} {n' : Name} {v' : Val} {cs' l0 : Forest} {rest : List Forest}
+    {tp : Tree} (pos : Int) (byName : Bool)
+    (hR : Realises s ([.node x n' v' cs'] :: l0 :: rest)) (hf : find? parent l0 = some tp) (hempty : tp.children = []) :
+    ∃ s', s.insert parent pos x byName = .ok s' ∧
+      Realises s' (modKids parent (fun _ => [.node x n' v' cs']) l0 :: rest) :=
+  insert_empty_refines pos byName hR hf hempty
+
+example : ∃ s', exStore.insert 0 (-1) 2 false = .ok s' ∧
+    Realises s' [[.node 0 (some "a") none [.node 2 (some "a") (some "v") [], .node 1 (some "b") none []]]] := by
+  simpa [modKids, addIdx, Tree.children] using
+    abs_insert (rest := []) (parent := 0) (tp := .node 0 (some "a") none [.node 1 (some "b") none []]) (-1) exRealises
+      (by simp [find?]) (by simp [Tree.children])
 
 /-- `mpt_node_unlink(x)`: `x` and everything below it leaves its sibling list and becomes a list of its own;
     the result is the old successor.  (For a detached root nothing is linked and nothing changes.) -/
@@ -146,6 +196,28 @@ theorem abs_node_clone {s : Store} {tops : List Forest} {x : Nat} {xn : Node}
       Realises s' (tops ++ [[.node s.nodes.length xn.name xn.value []]]) :=
   nodeClone_refines hR hx
 
+/-- `mpt_tree_clone(x)`: the copy is a new detached root realising the relabelled source tree -/
+theorem abs_tree_clone {s : Store} {x : Nat} {l0 : Forest} {rest : List Forest} {n : Name} {v : Val} {cs : Forest}
+    (hR : Realises s (l0 :: rest)) (hfx : find? x l0 = some (.node x n v cs)) :
+    ∃ s', s.treeClone x = .ok (s', s.nodes.length) ∧
+      Realises s' ((l0 :: rest) ++ [(relabel [.node x n v cs] s.nodes.length).1]) :=
+  treeClone_refines hR hfx
+
+/-- `mpt_list_clone(x)`: the copy of the sibling list from `x` on is a new top-level list realising the
+    relabelled source list -/
+theorem abs_list_clone {s : Store} {x j : Nat} {l0 L : Forest} {rest : List Forest} {par : Option Nat}
+    (hR : Realises s (l0 :: rest)) (hat : SibsAt x l0 L j par) :
+    ∃ s', s.listClone s.fuel (some x) = .ok (s', some s.nodes.length) ∧
+      Realises s' ((l0 :: rest) ++ [(relabel (L.drop j) s.nodes.length).1]) :=
+  listClone_refines hR hat
+
+example : ∃ s', exStore.treeClone 0 = .ok (s', 3) ∧
+    Realises s' [[.node 0 (some "a") none [.node 1 (some "b") none []]], [.node 2 (some "a") (some "v") []],
+      [.node 3 (some "a") none [.node 4 (some "b") none []]]] := by
+  simpa [relabel, exStore] using
+    abs_tree_clone (x := 0) (n := some "a") (v := none) (cs := [.node 1 (some "b") none []])
+      (exRealises.perm (List.Perm.swap _ _ _)) (by simp [find?])
+
 /-- the fuel both drivers pass to `clear`/`destroy` (`Store.fuel`) suffices on every well-formed store -/
 theorem fuel_suffices {s : Store} {tops : List Forest} (h : Realises s tops) {l : Forest} (hl : l ∈ tops) :
     cost l + 2 ≤ s.fuel := by
@@ -169,12 +241,17 @@ def wf_preserved_statement : Prop :=
         (∃ r, s.destroy s.fuel x = .ok r ∧ WF r.1) ∧ (∃ r, s.nodeClone x = .ok r ∧ WF r.1) ∧
         (∃ r, s.treeClone x = .ok r ∧ WF r.1) ∧ (∃ r, s.listClone s.fuel (some x) = .ok r ∧ WF r.1))
 
-/-- proved part: after, before, unlink, clear, destroy, shallow clone keep the store well-formed.
-    Missing w.r.t. `wf_preserved_statement`: insert/add (position and name search), tree/list clone. -/
+/-- proved part: after, before, add/insert by position, unlink, clear, destroy, node/tree/list clone keep the
+    store well-formed.  Missing w.r.t. `wf_preserved_statement`: insert/add by name. -/
 theorem wf_preserved_partial {s : Store} {tops : List Forest} (hR : Realises s tops) :
     -- after / before
     (∀ p x j n' v' cs' l0 L rest par, tops.Perm ([.node x n' v' cs'] :: l0 :: rest) → SibsAt p l0 L j par →
         (∃ s', s.gnodeAfter (some p) x = .ok s' ∧ WF s') ∧ (∃ s', s.gnodeBefore (some p) x = .ok s' ∧ WF s')) ∧
+    -- add / insert by position
+    (∀ first x f n' v' cs' l0 L rest par (pos : Int), tops.Perm ([.node x n' v' cs'] :: l0 :: rest) → SibsAt first l0 L f par →
+        ∃ s', s.add first pos x false = .ok s' ∧ WF s') ∧
+    (∀ parent x n' v' cs' l0 rest tp (pos : Int), tops.Perm ([.node x n' v' cs'] :: l0 :: rest) → find? parent l0 = some tp →
+        ∃ s', s.insert parent pos x false = .ok s' ∧ WF s') ∧
     -- unlink of a node with siblings or a parent
     (∀ x j l0 L rest par t, tops.Perm (l0 :: rest) → SibsAt x l0 L j par → L[j]? = some t →
         applyAt par (fun L => L.eraseIdx j) l0 ≠ [] → ∃ r, s.unlink x = .ok r ∧ WF r.1) ∧
@@ -182,14 +259,25 @@ theorem wf_preserved_partial {s : Store} {tops : List Forest} (hR : Realises s t
     (∀ x l0 tx rest, tops.Perm (l0 :: rest) → find? x l0 = some tx → ∃ s', s.clear s.fuel x = .ok s' ∧ WF s') ∧
     -- destroy of a detached root
     (∀ x n v cs rest, tops.Perm ([.node x n v cs] :: rest) → ∃ s', s.destroy s.fuel x = .ok (s', true) ∧ WF s') ∧
-    -- shallow clone
-    (∀ x xn, s.Live x xn → ∃ r, s.nodeClone x = .ok r ∧ WF r.1) := by
-  refine ⟨?_, ?_, ?_, ?_, ?_⟩
+    -- clones
+    (∀ x xn, s.Live x xn → ∃ r, s.nodeClone x = .ok r ∧ WF r.1) ∧
+    (∀ x n v cs l0 rest, tops.Perm (l0 :: rest) → find? x l0 = some (.node x n v cs) → ∃ r, s.treeClone x = .ok r ∧ WF r.1) ∧
+    (∀ x j l0 L rest par, tops.Perm (l0 :: rest) → SibsAt x l0 L j par → ∃ r, s.listClone s.fuel (some x) = .ok r ∧ WF r.1) := by
+  refine ⟨?_, ?_, ?_, ?_, ?_, ?_, ?_, ?_, ?_⟩
   · intro p x j n' v' cs' l0 L rest par hp hat
     have hR' := hR.perm hp.symm
     obtain ⟨s1, h1, r1⟩ := after_refines hR' hat
     obtain ⟨s2, h2, r2⟩ := before_refines hR' hat
     exact ⟨⟨s1, h1, _, r1⟩, ⟨s2, h2, _, r2⟩⟩
+  · intro first x f n' v' cs' l0 L rest par pos hp hat
+    obtain ⟨s1, h1, r1⟩ := add_refines pos (hR.perm hp.symm) hat
+    exact ⟨s1, h1, _, r1⟩
+  · intro parent x n' v' cs' l0 rest tp pos hp hf
+    by_cases hc : tp.children = []
+    · obtain ⟨s1, h1, r1⟩ := insert_empty_refines pos false (hR.perm hp.symm) hf hc
+      exact ⟨s1, h1, _, r1⟩
+    · obtain ⟨s1, h1, r1⟩ := insert_refines pos (hR.perm hp.symm) hf hc
+      exact ⟨s1, h1, _, r1⟩
   · intro x j l0 L rest par t hp hat ht hne
     obtain ⟨s1, h1, r1⟩ := unlink_refines (hR.perm hp.symm) hat ht hne
     exact ⟨_, h1, _, r1⟩
@@ -216,14 +304,23 @@ theorem wf_preserved_partial {s : Store} {tops : List Forest} (hR : Realises s t
   · intro x xn hx
     obtain ⟨s1, h1, r1⟩ := nodeClone_refines hR hx
     exact ⟨_, h1, _, r1⟩
+  · intro x n v cs l0 rest hp hfx
+    obtain ⟨s1, h1, r1⟩ := treeClone_refines (hR.perm hp.symm) hfx
+    exact ⟨_, h1, _, r1⟩
+  · intro x j l0 L rest par hp hat
+    obtain ⟨s1, h1, r1⟩ := listClone_refines (hR.perm hp.symm) hat
+    exact ⟨_, h1, _, r1⟩
 
 example : ∃ s', exStore.destroy exStore.fuel 2 = .ok (s', true) ∧ WF s' :=
-  (wf_preserved_partial exRealises).2.2.2.1 2 _ _ _ _ (List.Perm.refl _)
+  (wf_preserved_partial exRealises).2.2.2.2.2.1 2 _ _ _ _ (List.Perm.refl _)
 
 /-! ### abs_ops (summary statement) -/
 
-/-- the full statement of `abs_ops`: also insert/add by position and by name, tree/list clone and move act on
-    the abstraction as `Forest.St.add/insert/clone/move` do (these four are checked by the correspondence run only) -/
+/-- the full statement of `abs_ops` in terms of the spec state `Forest.St` (which also does the searching for
+    the operands): insert/add by position and by name, tree/list clone and move act on the abstraction as
+    `Forest.St.add/insert/clone/move` do.  Proved above for the position variants in decomposed form
+    (`abs_add`, `abs_insert`, `abs_insert_first_child`) and the clones (`abs_tree_clone`, `abs_list_clone`);
+    by name and move are checked by the correspondence run only. -/
 def abs_ops_statement : Prop :=
   ∀ (s : Store) (sp : Forest.St), Realises s sp.tops → sp.next = s.nodes.length →
     (∀ p pos x byName sp', sp.add p pos x byName = some sp' → ∃ s', s.add p pos x byName = .ok s' ∧ Realises s' sp'.tops) ∧
@@ -285,13 +382,22 @@ theorem clone_equal (l : Forest) (k : Nat) :
 example : shape (relabel [.node 0 (some "a") none [.node 1 (some "b") none []]] 7).1 =
     shape [.node 0 (some "a") none [.node 1 (some "b") none []]] := (clone_equal _ 7).1
 
-/-- the full statement of `clone_equal` on the pointer store: `mpt_tree_clone`/`mpt_list_clone` realise the
-    relabelled forest (same shape at every depth).  Proved only for the shallow clone (`abs_node_clone`);
-    the deep clones are compared with S by the correspondence run (depth up to 5). -/
-def clone_equal_statement : Prop :=
-  ∀ (s : Store) (tops : List Forest) (x : Nat) (l0 : Forest) (rest : List Forest) (L : Forest) (j : Nat) (par : Option Nat) (t : Tree),
-    Realises s tops → tops.Perm (l0 :: rest) → SibsAt x l0 L j par → L[j]? = some t →
-    (∃ r, s.treeClone x = .ok r ∧ Realises r.1 (tops ++ [(relabel [t] s.nodes.length).1])) ∧
-    (∃ r, s.listClone s.fuel (some x) = .ok r ∧ Realises r.1 (tops ++ [(relabel (L.drop j) s.nodes.length).1]))
+/-- `clone_equal` on the pointer store: `mpt_tree_clone` and `mpt_list_clone` succeed on a well-formed store, the
+    new store is well-formed again with the copy as an additional top-level list, and the copy has the same shape,
+    names and values as its source at every depth (handles: the fresh consecutive record numbers). -/
+theorem clone_equal_store {s : Store} {l0 : Forest} {rest : List Forest} (hR : Realises s (l0 :: rest)) :
+    (∀ x n v cs, find? x l0 = some (.node x n v cs) →
+      ∃ s' copy, s.treeClone x = .ok (s', s.nodes.length) ∧ Realises s' ((l0 :: rest) ++ [copy]) ∧
+        shape copy = shape [.node x n v cs]) ∧
+    (∀ x j L par, SibsAt x l0 L j par →
+      ∃ s' copy, s.listClone s.fuel (some x) = .ok (s', some s.nodes.length) ∧ Realises s' ((l0 :: rest) ++ [copy]) ∧
+        shape copy = shape (L.drop j)) := by
+  refine ⟨?_, ?_⟩
+  · intro x n v cs hfx
+    obtain ⟨s', h1, h2⟩ := treeClone_refines hR hfx
+    exact ⟨s', _, h1, h2, shape_relabel _ _⟩
+  · intro x j L par hat
+    obtain ⟨s', h1, h2⟩ := listClone_refines hR hat
+    exact ⟨s', _, h1, h2, shape_relabel _ _⟩
 
 end Mpt.C14
